@@ -20,7 +20,9 @@ MODULE = 'Props.C18'
 THEOREMS = ['C18_import_found_is_looked_up', 'C18_lookup_agrees_partial', 'C18_lookup_default_flags_partial',
             'C18_shadow_refuted', 'C18_missing_is_none', 'C18_lookup_is_real',
             'C18_roundtrip_partial', 'C18_roundtrip_default_partial', 'C18_roundtrip_root_package_refuted',
-            'C18_package_listing', 'C18_package_listing_no_duplicates', 'C18_nonvacuous']
+            'C18_package_listing', 'C18_package_listing_no_duplicates', 'C18_nonvacuous',
+            'C18_listing_with_packages', 'C18_listed_names_keep_prefix', 'C18_selection_names_partial',
+            'C18_answers_depend_on_current_tree_only', 'C18_history_nonvacuous']
 LEVEL = 'proof'
 DRIVER = 'harness.drivers.c18'
 
@@ -195,6 +197,42 @@ def expected_listing(t, pkg):
     return out
 
 
+def expected_listing_pkg(t, pkg):
+    """package_modpaths(pkg, with_pkg=True): also the __init__.py of the package and its sub-packages"""
+    n = tget(t, pkg)
+    if n is None:
+        return [pkg]
+    if not isinstance(n, dict):
+        return []
+    out = []
+
+    def rec(d, pre):
+        if INIT not in d:
+            return
+        for k, v in d.items():
+            if v is None and os.path.splitext(k)[1] == '.py':
+                out.append(pre + [k])
+            elif isinstance(v, dict):
+                rec(v, pre + [k])
+    rec(n, list(pkg))
+    return out
+
+
+def nice_subtree(n):
+    """every name below is a regular one: directories dot-free, files <identifier>.py or not python at all"""
+    if n is None:
+        return True
+    for k, v in n.items():
+        if isinstance(v, dict):
+            if '.' in k or not k or not nice_subtree(v):
+                return False
+        elif os.path.splitext(k)[1] == '.py' or k.startswith('.'):
+            stem = k[:-3] if k.endswith('.py') else k
+            if not stem or '.' in stem:
+                return False
+    return True
+
+
 # ---------------------------------------------------------------------------- scenarios
 def chains(t, root):
     """every dotted name that has some footprint below the root (packages or not)"""
@@ -233,6 +271,48 @@ def perturb(rnd, comps):
 FLAGS = [(True, False), (True, True), (False, False), (False, True)]
 
 
+def select_queries(rnd, t, roots, names, n):
+    """-p selections: dotted names of packages (nested depth first) and modules, paths, several at once"""
+    real_roots = [r for r in roots if isinstance(tget(t, r), dict)]
+    if not real_roots:
+        return []
+    qs = []
+    pk = [c for c in names if any(t_isfile(t, r + c + [INIT]) for r in real_roots)]
+    pk.sort(key=lambda c: -len(c))
+    mods = [c for c in names if c not in pk]
+    picks = pk[:max(1, n // 2)] + rnd.sample(pk, min(len(pk), max(1, n // 2))) + rnd.sample(mods, min(len(mods), 1))
+    picks.append([rnd.choice(NAMES), 'nothing_here'])
+    seen = []
+    for c in picks:
+        if c in seen:
+            continue
+        seen.append(c)
+        r = rnd.random()
+        if r < 0.8:
+            script = list(rnd.choice(real_roots)) + ['script.py']
+        else:
+            # the script lives inside some directory of the tree (possibly a package)
+            ds = [p for p, v in all_paths(t) if isinstance(v, dict)]
+            script = list(rnd.choice(ds)) + ['script.py']
+        qs.append(dict(kind='select', script=script, sys_path=[list(x) for x in roots],
+                       entries=[dict(name='.'.join(c), comps=c)], judge=True))
+    # by path: directories, files, something that does not exist; and several entries at once
+    files, dirs = tree_lists(t)
+    cand = [p for p in dirs if len(p) >= 2] + [p for p in files if p[-1].endswith('.py')]
+    for p in rnd.sample(cand, min(len(cand), 2)) + [rnd.choice([['r0', 'no_such_dir'], ['r0', 'no_such.py']])]:
+        qs.append(dict(kind='select', script=list(real_roots[0]) + ['script.py'], sys_path=[list(x) for x in roots],
+                       entries=[dict(path=p)], judge=False))
+    if len(seen) >= 2 and cand:
+        ents = [dict(name='.'.join(c), comps=c) for c in rnd.sample(seen, 2)] + [dict(path=rnd.choice(cand))]
+        rnd.shuffle(ents)
+        script = list(real_roots[0]) + ['script.py']
+        if files and rnd.random() < 0.3:
+            script = rnd.choice(files)
+            ents.append(dict(path=script))
+        qs.append(dict(kind='select', script=script, sys_path=[list(x) for x in roots], entries=ents, judge=False))
+    return qs
+
+
 def make_queries(rnd, t, roots, nlook, nlist, nm2n):
     names = []
     for r in roots:
@@ -265,6 +345,9 @@ def make_queries(rnd, t, roots, nlook, nlist, nm2n):
     if files:
         qs.append(dict(kind='list', path=rnd.choice(files)))
     qs.append(dict(kind='list', path=['r0', 'nonexistent']))
+    for p in (rnd.sample(lp, min(len(lp), max(2, nlist // 2))) + ([rnd.choice(files)] if files else [])):
+        qs.append(dict(kind='listpkg', path=p))
+    qs += select_queries(rnd, t, roots, names, max(2, nlist // 3))
     mp = files + dirs
     if len(mp) > nm2n:
         mp = rnd.sample(mp, nm2n)
@@ -310,6 +393,104 @@ def gen_random_scenario(rnd, sizes):
     return scenario_from_tree(t, roots, make_queries(rnd, t, roots, *sizes), 'random')
 
 
+def evolve(rnd, t, roots):
+    """one change of the tree between two moments of a history -> (new tree, what, wipe)"""
+    t = copy.deepcopy(t)
+    dirs = [p for p, v in all_paths(t) if isinstance(v, dict) and len(p) >= 2 and p[-1] != INIT]
+    r = rnd.random()
+    if r < 0.55 and dirs:
+        for p in rnd.sample(dirs, min(len(dirs), rnd.choice([1, 1, 2]))):
+            d = tget(t, p)
+            if d.get(INIT, 0) is None:
+                del d[INIT]                      # the directory stops being a package
+            elif INIT not in d:
+                d[INIT] = None                   # ... or becomes one
+        return t, 'toggle-init', False
+    if r < 0.7:
+        alld = [p for p, v in all_paths(t) if isinstance(v, dict) and p[-1] != INIT]
+        d = tget(t, rnd.choice(alld))
+        mods = [k for k, v in d.items() if v is None and k.endswith('.py') and k != INIT]
+        if mods and rnd.random() < 0.5:
+            del d[rnd.choice(mods)]
+        else:
+            d[rnd.choice(NAMES) + '.py'] = None
+        return t, 'module-file', False
+    if r < 0.8 and dirs:
+        p = rnd.choice(dirs)
+        del tget(t, p[:-1])[p[-1]]
+        return t, 'remove-subtree', False
+    # another tree at the same place (a re-used directory name)
+    new = {}
+    for rt in roots:
+        if len(rt) == 1 and isinstance(t.get(rt[0]), dict):
+            new[rt[0]] = mutate(rnd, t[rt[0]]) if rnd.random() < 0.6 else gen_dir(rnd, 0, 3, False, False)
+    for k, v in t.items():
+        new.setdefault(k, v)
+    return new, 'replace-tree', rnd.random() < 0.5
+
+
+def requery(qs, t):
+    """the questions of the previous moment that can be asked again"""
+    out = []
+    for q in qs:
+        if q['kind'] in ('m2n', 'list', 'listpkg') and not t_exists(t, q['path']) and len(q['path']) > 1:
+            continue
+        q = copy.deepcopy(q)
+        q['real'] = False
+        out.append(q)
+    return out
+
+
+def gen_history(rnd, steps, sizes):
+    """the same directory at several moments, queried at each of them inside one process"""
+    nroots = rnd.choice([1, 1, 2])
+    t = {'r%d' % i: gen_dir(rnd, 0, rnd.choice([2, 3, 3]), False, False) for i in range(nroots)}
+    roots = [['r%d' % i] for i in range(nroots)]
+    out, prev = [], []
+    for k in range(steps):
+        what, wipe = 'start', False
+        if k:
+            t, what, wipe = evolve(rnd, t, roots)
+        qs = make_queries(rnd, t, roots, *sizes)
+        files = [p for p, v in all_paths(t) if v is None and p[-1].endswith('.py')]
+        for p in (files if len(files) <= 14 else rnd.sample(files, 14)):
+            qs.append(dict(kind='m2n', path=p, hi=True, hm=False))
+        keep = requery(prev, t)
+        qs += keep if len(keep) <= 30 else rnd.sample(keep, 30)
+        sc = scenario_from_tree(t, roots, qs, 'history:' + what)
+        sc['continues'] = k > 0
+        sc['wipe'] = wipe
+        sc['hist'] = list(out)
+        out.append(sc)
+        prev = qs
+    return out
+
+
+def fixed_history():
+    """a plain directory below a package becomes a package and stops being one again"""
+    roots = [['r0']]
+    t0 = {'r0': {'pkg': {INIT: None, 'a.py': None, 'tools': {'helper.py': None, 'deep': {INIT: None, 'z.py': None}}}}}
+    t1 = copy.deepcopy(t0)
+    t1['r0']['pkg']['tools'][INIT] = None
+    t2 = copy.deepcopy(t0)
+    t3 = {'r0': {'pkg': {'a.py': None, 'tools': {INIT: None, 'helper.py': None}}}}
+    out = []
+    for k, t in enumerate([t0, t1, t2, t3, t1]):
+        qs = [dict(kind='m2n', path=p, hi=True, hm=False) for p, v in all_paths(t) if v is None]
+        qs += [dict(kind='lookup', name=n, comps=n.split('.'), hi=True, hm=False, real=False, fms=False)
+               for n in ('pkg.tools.helper', 'pkg.tools', 'pkg.a', 'pkg.tools.deep.z', 'tools.helper')]
+        qs += [dict(kind='list', path=['r0', 'pkg']), dict(kind='listpkg', path=['r0', 'pkg']),
+               dict(kind='listpkg', path=['r0', 'pkg', 'tools'])]
+        qs += [dict(kind='select', script=['r0', 'script.py'], sys_path=roots, entries=[dict(name=n, comps=n.split('.'))], judge=True)
+               for n in ('pkg', 'pkg.tools')]
+        sc = scenario_from_tree(t, roots, qs, 'history:fixed')
+        sc['continues'] = k > 0
+        sc['wipe'] = k == 3
+        sc['hist'] = list(out)
+        out.append(sc)
+    return out
+
+
 def fixed_scenarios():
     """hand-written layouts: the refutation witnesses, namesakes, look-alikes, depth 4"""
     out = []
@@ -341,7 +522,29 @@ def fixed_scenarios():
     files, dirs = tree_lists(t)
     q3 += [dict(kind='list', path=p) for p in [[]] + dirs + files[:3]]
     q3 += [dict(kind='m2n', path=p, hi=hi, hm=hm) for p in files + dirs for hi, hm in FLAGS]
+    q3 += [dict(kind='listpkg', path=p) for p in [[]] + dirs + files[:3]]
+    for n in ('pk', 'pk.a', 'pk.a.b', 'pk.a.b.m', 'pk.a.b.m.x1', 'foo', 'foo.foo_bar', 'foo_bar', 'a', 'foobar', 'pk.nons', 'nowhere.x'):
+        q3.append(dict(kind='select', script=['r0', 'script.py'], sys_path=[['r0'], ['r1']],
+                       entries=[dict(name=n, comps=n.split('.'))], judge=True))
+    for p in (['r0', 'pk', 'a'], ['r0', 'pk', 'a', 'b'], ['r0', 'pk', 'a', 'b', 'm', 'x1.py'], ['r0', 'foo'], ['r0', 'a'], ['r0', 'a.py'], ['r0', 'zz']):
+        q3.append(dict(kind='select', script=['r0', 'script.py'], sys_path=[['r0'], ['r1']], entries=[dict(path=p)], judge=False))
+    q3.append(dict(kind='select', script=['r0', 'foo', 'script.py'], sys_path=[['r0'], ['r1']],
+                   entries=[dict(name='pk.a.b', comps=['pk', 'a', 'b']), dict(path=['r0', 'foo']), dict(name='a.b', comps=['a', 'b']),
+                            dict(path=['r0', 'foo', 'script.py']), dict(name='pk.a', comps=['pk', 'a'])], judge=False))
     out.append(scenario_from_tree(t, [['r0'], ['r1']], q3, 'fixed-layout'))
+    # nested packages with a top-level look-alike of an inner package
+    t = {'r0': {'sub': {INIT: None, 'b.py': None},
+                'pkg': {INIT: None, 'a.py': None,
+                        'sub': {INIT: None, 'b.py': None,
+                                'deep': {INIT: None, 'c.py': None, 'deeper': {INIT: None, 'd.py': None, MAIN: None}},
+                                'plain': {'e.py': None}}}}}
+    q4 = []
+    for n in ('pkg', 'pkg.sub', 'pkg.sub.deep', 'pkg.sub.deep.deeper', 'pkg.sub.deep.c', 'sub', 'pkg.sub.plain'):
+        q4.append(dict(kind='select', script=['r0', 'script.py'], sys_path=[['r0']], entries=[dict(name=n, comps=n.split('.'))], judge=True))
+    for p in (['r0', 'pkg'], ['r0', 'pkg', 'sub'], ['r0', 'pkg', 'sub', 'deep'], ['r0', 'pkg', 'sub', 'deep', 'c.py'], ['r0', 'pkg', 'sub', 'plain']):
+        q4.append(dict(kind='select', script=['r0', 'script.py'], sys_path=[['r0']], entries=[dict(path=p)], judge=False))
+        q4.append(dict(kind='listpkg', path=p))
+    out.append(scenario_from_tree(t, [['r0']], q4, 'fixed-nested'))
     return out
 
 
@@ -374,6 +577,9 @@ def gen_scenarios(tier, rnd):
     sizes = (24, 8, 8) if tier == 'quick' else (30, 10, 10)
     sc = fixed_scenarios() + micro_scenarios(tier)
     sc += [gen_random_scenario(rnd, sizes) for _ in range(n)]
+    sc += fixed_history()
+    for _ in range(24 if tier == 'quick' else 400):
+        sc += gen_history(rnd, rnd.choice([3, 4]), (8, 3, 3))
     return sc
 
 
@@ -432,6 +638,35 @@ def py_lookup_verdicts(sc, q, r):
     return res
 
 
+def select_judged(sc, q, r):
+    """a single dotted name that the import system resolves to a module or to a package whose
+    files all have regular names: the selection is judged against the import system"""
+    if sc['weird'] or not q.get('judge') or len(q['entries']) != 1 or 'name' not in q['entries'][0]:
+        return False
+    if q['entries'][0]['comps'][-1] == '__init__':
+        return False          # pkg.__init__ is, by design of hide_init, treated as the package pkg
+    pf = r.get('pf') or ['none']
+    if pf[0] != 'found':
+        return False
+    n = tget(sc['tree'], pf[1])
+    return n is None or (isinstance(n, dict) and nice_subtree(n))
+
+
+def classify_select(sc, q, r):
+    """the root through which the name resolves is itself a package directory"""
+    t = sc['tree']
+    roots = [q['script'][:-1]] + q['sys_path']
+    comps = q['entries'][0]['comps']
+    for rt in roots:
+        if py_import(t, [rt], comps)[0] == 'found':
+            if t_exists(t, rt + [INIT]) and r.get('out') and all(
+                    x == q['entries'][0]['name'] or x.endswith('.' + '.'.join(comps)) or ('.' + '.'.join(comps) + '.') in ('.' + x)
+                    for x in r['out']):
+                return F_ROOTPKG
+            break
+    return None
+
+
 def in_quantifier(sc, q):
     if sc['weird']:
         return False
@@ -485,6 +720,20 @@ def cq_row(tname, sc, q, r):
         if r['err'] or not encodable(r):
             return None
         return '(listing_row %s %s %s)' % (tname, cq_path(q['path']), core.coq_list([cq_path(x) for x in r['out']]))
+    if q['kind'] == 'listpkg':
+        if r['err'] or not encodable(r):
+            return None
+        return '(listpkg_row %s %s %s)' % (tname, cq_path(q['path']), core.coq_list([cq_path(x) for x in r['out']]))
+    if q['kind'] == 'select':
+        if r['err'] not in (None, 'ValueError') or not encodable(r.get('out')):
+            return None
+        ents = core.coq_list(['(PName %s)' % cq_path(e['comps']) if 'name' in e else '(PPath %s)' % cq_path(e['path']) for e in q['entries']])
+        judge = 'None'
+        if q.get('judge') and select_judged(sc, q, r):
+            judge = '(Some %s)' % cq_path(q['entries'][0]['comps'])
+        out = 'None' if r['out'] is None else '(Some %s)' % core.coq_list([core.coq_str(x) for x in r['out']])
+        return '(select_row %s %s %s %s %s %s)' % (tname, core.coq_list([cq_path(x) for x in q['sys_path']]),
+                                                   cq_path(q['script']), ents, out, judge)
     if q['kind'] == 'm2n':
         if r['name_err'] not in (None, 'ValueError') or r['split_err'] not in (None, 'ValueError') or r['norm_err'] or not encodable(r):
             return None
@@ -495,7 +744,7 @@ def cq_row(tname, sc, q, r):
     raise ValueError(q['kind'])
 
 
-HEADER = 'From LP Require Import Prelude.Py Resolve.FsModel Resolve.ModPath Resolve.ModPathSpec Resolve.ModPathCases.'
+HEADER = 'From LP Require Import Prelude.Py Resolve.FsModel Resolve.ModPath Resolve.ModPathSpec Resolve.ModPathSelect Resolve.ModPathCases.'
 
 
 def build_shards(scs, outs, per=380):
@@ -541,11 +790,19 @@ def build_shards(scs, outs, per=380):
 def run_driver(impl, scs, tmp):
     """the driver gets everything but the tree dicts; big runs are split over processes"""
     from concurrent.futures import ThreadPoolExecutor
-    groups = core.chunks(list(range(len(scs))), 200)
+    groups, cur = [], []
+    for i, sc in enumerate(scs):
+        if cur and len(cur) >= 150 and not sc.get('continues'):
+            groups.append(cur)
+            cur = []
+        cur.append(i)
+    if cur:
+        groups.append(cur)
 
     def one(g):
         payload = dict(tmp=str(tmp), scenarios=[dict(files=scs[i]['files'], dirs=scs[i]['dirs'], roots=scs[i]['roots'],
-                                                      root_suffix=scs[i].get('root_suffix', ''), queries=scs[i]['queries']) for i in g])
+                                                      root_suffix=scs[i].get('root_suffix', ''), queries=scs[i]['queries'],
+                                                      continues=bool(scs[i].get('continues')), wipe=bool(scs[i].get('wipe'))) for i in g])
         return core.run_impl(impl, DRIVER, payload, timeout=1200)['results']
     with ThreadPoolExecutor(max_workers=min(core.NCPU, len(groups))) as ex:
         parts = list(ex.map(one, groups))
@@ -591,12 +848,40 @@ def judge_python(scs, outs, res, stats):
                     fails.append(dict(case=case_of(sc, q), impl=r, why='package listing differs from the module files of the package and its sub-packages: expected %r' % exp, finding=None))
                 if isinstance(tget(t, q['path']), dict) and INIT in tget(t, q['path']):
                     stats['hyp_listing_pkg'] += 1
+            elif q['kind'] == 'listpkg':
+                if sc['weird'] or r['err']:
+                    continue
+                exp = sorted(expected_listing_pkg(t, q['path']))
+                if sorted(r['out']) != exp:
+                    fails.append(dict(case=case_of(sc, q), impl=r, why='package listing (with_pkg) differs from the python files of the package and its sub-packages: expected %r' % exp, finding=None))
+            elif q['kind'] == 'select':
+                stats['select'] += 1
+                if not select_judged(sc, q, r):
+                    continue
+                mirror = py_import(t, [q['script'][:-1]] + q['sys_path'], q['entries'][0]['comps'])
+                if mirror != r['pf']:
+                    res.mismatches.append(dict(case=case_of(sc, q), impl=r, model='python mirror of the specification says %r, PathFinder %r' % (mirror, r['pf'])))
+                stats['select_judged'] += 1
+                if len(q['entries'][0]['comps']) >= 2 and r['pf'][2]:
+                    stats['select_nested_package'] += 1
+                if r['out'] is None or sorted(set(r['out'])) != sorted(set(r['oracle'])) or len(set(r['out'])) != len(r['out']):
+                    fid = classify_select(sc, q, r)
+                    if fid == F_ROOTPKG and not ROOT_INIT_IN_QUANTIFIER:
+                        stats['obs_root_package_roundtrip'] += 1
+                        continue
+                    fails.append(dict(case=case_of(sc, q), impl=r, finding=fid,
+                                      why='-p selection differs from the names the import system gives the modules inside: expected %r' % sorted(r['oracle'])))
     return fails
 
 
 def case_of(sc, q):
-    return dict(tree=sc['tree'], roots=sc['roots'], query={k: v for k, v in q.items()}, tag=sc['tag'],
-                root_suffix=sc.get('root_suffix', ''))
+    c = dict(tree=sc['tree'], roots=sc['roots'], query={k: v for k, v in q.items()}, tag=sc['tag'],
+             root_suffix=sc.get('root_suffix', ''))
+    if sc.get('hist'):
+        # the earlier moments of the same directory, with everything that was asked then
+        c['history'] = [dict(tree=h['tree'], roots=h['roots'], queries=h['queries'], wipe=h.get('wipe', False)) for h in sc['hist']]
+        c['wipe'] = sc.get('wipe', False)
+    return c
 
 
 def observe_trailing_slash(impl, tmp):
@@ -689,12 +974,18 @@ def run(tier, seed):
             fid = classify_lookup(sc, q, r) or classify_roundtrip(sc, q, r)
             if fid == F_ROOTPKG and not ROOT_INIT_IN_QUANTIFIER:
                 continue
+        if q['kind'] == 'select':
+            fid = classify_select(sc, q, r)
+            if fid == F_ROOTPKG and not ROOT_INIT_IN_QUANTIFIER:
+                continue
         res.spec_fails.append(dict(case=case_of(sc, q), impl=r, why='Coq-side property predicate false on the implementation\'s output', finding=fid))
     # a Python-side failure the Coq-side predicate does not see (or vice versa) is a harness disagreement
     if model_ok and not res.infra_errors:
-        pykeys = {json.dumps(f['case'], sort_keys=True) for f in pyfails}
+        # (selections are judged by two differently phrased predicates - set equality with pkgutil's listing
+        #  on the Python side, soundness + completeness inside Coq - and are left out of this comparison)
+        pykeys = {json.dumps(f['case'], sort_keys=True) for f in pyfails if f['case']['query']['kind'] != 'select'}
         coqkeys = {json.dumps(case_of(scs[si], scs[si]['queries'][qi]), sort_keys=True) for si, qi in coq_fail_keys
-                   if in_quantifier(scs[si], scs[si]['queries'][qi])
+                   if in_quantifier(scs[si], scs[si]['queries'][qi]) and scs[si]['queries'][qi]['kind'] != 'select'
                    and not (not ROOT_INIT_IN_QUANTIFIER and classify_roundtrip(scs[si], scs[si]['queries'][qi], outs[si][qi]) == F_ROOTPKG)}
         if pykeys != coqkeys:
             res.notes.append('python-side and Coq-side predicates disagree on %d case(s)' % len(pykeys ^ coqkeys))
@@ -732,6 +1023,10 @@ def run(tier, seed):
         roots_hist={str(k): v for k, v in sorted(roots_hist.items())},
         pathfinder_outcomes={k[3:]: v for k, v in stats.items() if k.startswith('pf_')},
         real_imports_compared=stats['real_imports'],
+        histories=sum(1 for sc in scs if sc['tag'].startswith('history') and not sc.get('continues')),
+        history_moments=dict(collections.Counter(sc['tag'] for sc in scs if sc['tag'].startswith('history'))),
+        selections=dict(run=stats['select'], judged_against_import_system=stats['select_judged'],
+                        nested_package_by_name=stats['select_nested_package']),
         rows_evaluated_in_coq=nrows,
         outside_quantifier=stats['outside_quantifier'],
         hypothesis_holds_on=dict(no_shadow=stats['hyp_no_shadow'], roots_plain_and_found=stats['hyp_roundtrip'],
@@ -757,14 +1052,26 @@ def replay(path):
     impl = core.build_impl()
     tmp = core.SCRATCH_ROOT / 'tmp'
     tmp.mkdir(parents=True, exist_ok=True)
+    scs = []
+    for h in c.get('history', []):
+        sc = scenario_from_tree(h['tree'], h['roots'], h['queries'], 'replay-history')
+        sc['continues'] = bool(scs)
+        sc['wipe'] = bool(h.get('wipe'))
+        scs.append(sc)
     sc = scenario_from_tree(c['tree'], c['roots'], [c['query']], 'replay')
+    sc['continues'] = bool(scs)
+    sc['wipe'] = bool(c.get('wipe'))
     if c.get('root_suffix'):
         sc['root_suffix'] = c['root_suffix']
-    out = run_driver(impl, [sc], tmp)
+    scs.append(sc)
+    out = run_driver(impl, scs, tmp)
     import collections
     dummy = core.Result(PROP)
-    fails = judge_python([sc], out, dummy, collections.Counter())
+    fails = judge_python([sc], [out[-1]], dummy, collections.Counter())
     ok = not fails and not dummy.mismatches
-    print(json.dumps(dict(case=c, impl=out[0][0], holds=ok, why=[f['why'] for f in fails],
+    c = dict(c)
+    if 'history' in c:
+        c['history'] = '<%d earlier moments of the same directory>' % len(c['history'])
+    print(json.dumps(dict(case=c, impl=out[-1][0], holds=ok, why=[f['why'] for f in fails],
                           finding=[f['finding'] for f in fails]), indent=1))
     return 0 if ok else 1
